@@ -100,6 +100,8 @@ func NewUpstreamReverseProxy(config *UpstreamConfig, signer *RequestSigner) (htt
 			for key := range securityHeaders {
 				resp.Header.Del(key)
 			}
+			// set by the requireHTTPS middleware, and documented as not overridable by upstreams
+			resp.Header.Del("Strict-Transport-Security")
 
 			return nil
 		},
